@@ -13,6 +13,7 @@ import pandas as pd
 
 from harness import common as C
 from harness import election as E
+from harness import extract as X
 from harness.props.c14 import exact_election
 
 PROP = "C05"
@@ -160,6 +161,10 @@ def one_case(run, driver, rng, reuse=False):
                     break
         run.traces += 1
     run.case(case, nontrivial)
+
+
+def extract(run):
+    return X.generate("C05")
 
 
 def explore(run, driver, budget):
